@@ -89,5 +89,12 @@ void h_pstrtod_long_literal() {
   OBL(!g_strtod_called, "C18.pstrtod: a literal with more digits than a double holds is still parsed without the locale-dependent strtod");
   OBL(end == s + 22, "C18.pstrtod: the whole long literal is consumed");
   OBL(r >= 0.0, "C18.pstrtod: a digit string is never negative");
+  // leading zeros are not significant digits: 0.00000000000000000016 is 16 / 10^20 (one correctly rounded operation)
+  bool lead_zero = vin_dot <= 19;
+  for (int i = 0; i < 20; i++) if (i != vin_dot && s[i] != '0') lead_zero = false;
+  if (lead_zero) {
+    int m = (s[20] - '0') * 10 + (s[21] - '0'); int k = 21 - vin_dot;
+    OBL(r == (double)m / kP10[k], "C18.pstrtod: a literal with many leading zeros keeps its significant digits (0.00000000000000000016 is 1.6e-19, not 0)");
+  }
   VU_REACHED();
 }
